@@ -1,10 +1,12 @@
 //! C09: ArraySubset algebra and iterators. One stateless case per line.
 use crate::util::*;
 use rayon::iter::plumbing::{Producer, ProducerCallback};
-use rayon::iter::{IndexedParallelIterator, IntoParallelIterator};
+use rayon::iter::{IndexedParallelIterator, IntoParallelIterator, ParallelIterator};
 use std::collections::BTreeMap;
 use std::num::NonZeroU64;
+use std::ops::Bound;
 use zarrs::array::{ravel_indices, unravel_index};
+use zarrs::array_subset::iterators::{Chunks, ContiguousIndices, ContiguousLinearisedIndices, Indices, LinearisedIndices};
 use zarrs::array_subset::ArraySubset;
 
 fn subset(m: &BTreeMap<String, String>, ks: &str, kn: &str) -> ArraySubset {
@@ -92,6 +94,213 @@ fn drive<T, I: DoubleEndedIterator<Item = T> + ExactSizeIterator>(
     }
     let rest: Vec<T> = it.collect();
     (f, b, rest, lens)
+}
+
+
+/// range bound text: `i<n>` included, `x<n>` excluded, `u` unbounded
+fn parse_bound(s: &str) -> Bound<usize> {
+    match s.as_bytes()[0] {
+        b'i' => Bound::Included(s[1..].parse().unwrap()),
+        b'x' => Bound::Excluded(s[1..].parse().unwrap()),
+        _ => Bound::Unbounded,
+    }
+}
+/// `Indices::new_with_start_end` through the std range type the bounds spell (`a..b`, `a..=b`, `..`, `a..`, `..b`, `..=b`),
+/// a `(Bound, Bound)` pair for an excluded start
+fn indices_range(s: ArraySubset, lo: Bound<usize>, hi: Bound<usize>) -> Indices {
+    match (lo, hi) {
+        (Bound::Included(a), Bound::Excluded(b)) => Indices::new_with_start_end(s, a..b),
+        (Bound::Included(a), Bound::Included(b)) => Indices::new_with_start_end(s, a..=b),
+        (Bound::Unbounded, Bound::Unbounded) => Indices::new_with_start_end(s, ..),
+        (Bound::Included(a), Bound::Unbounded) => Indices::new_with_start_end(s, a..),
+        (Bound::Unbounded, Bound::Excluded(b)) => Indices::new_with_start_end(s, ..b),
+        (Bound::Unbounded, Bound::Included(b)) => Indices::new_with_start_end(s, ..=b),
+        (lo, hi) => Indices::new_with_start_end(s, (lo, hi)),
+    }
+}
+fn show_ranges(rs: &[zarrs::storage::byte_range::ByteRange]) -> String {
+    let xs: Vec<String> = rs
+        .iter()
+        .map(|r| match r {
+            zarrs::storage::byte_range::ByteRange::FromStart(o, Some(l)) => format!("{}:{}", o, l),
+            other => format!("?{}", other),
+        })
+        .collect();
+    if xs.is_empty() { "~".to_string() } else { xs.join(";") }
+}
+fn show_chunk_items(xs: &[(Vec<u64>, ArraySubset)]) -> String {
+    if xs.is_empty() { "~".to_string() } else {
+        xs.iter().map(|(c, s)| format!("{}@{}", nl(c), show_subset(s))).collect::<Vec<_>>().join(";")
+    }
+}
+fn nzs(v: &[u64]) -> Vec<NonZeroU64> {
+    v.iter().map(|&c| NonZeroU64::new(c).unwrap()).collect()
+}
+fn tree_of(m: &BTreeMap<String, String>) -> Tree {
+    let toks: Vec<&str> = m["tree"].split('.').collect();
+    parse_tree(&mut toks.iter())
+}
+
+/// the verbs added by the API-coverage audit: explicit index ranges, the `_unchecked` variants (called only under their
+/// documented safety contracts), the remaining constructors/accessors and the type-level iterator constructors
+fn exec_api(verb: &str, m: &BTreeMap<String, String>) -> Option<String> {
+    Some(match verb {
+        "irange" => {
+            let s = subset(m, "start", "shape");
+            let ind = indices_range(s, parse_bound(&m["lo"]), parse_bound(&m["hi"]));
+            let (f, b, r, lens) = drive(ind.iter(), &m["dirs"]);
+            let plen = IndexedParallelIterator::len(&(&ind).into_par_iter());
+            let olen = (&ind).into_par_iter().opt_len().map(|x| x.to_string()).unwrap_or("none".into());
+            let cnt = (&ind).into_iter().count();
+            format!("val f={} b={} r={} lens={} len={} empty={} plen={} optlen={} count={}", nll(&f), nll(&b), nll(&r), nl(&lens), ind.len(), ind.is_empty(), plen, olen, cnt)
+        }
+        "irangesplit" => {
+            let s = subset(m, "start", "shape");
+            let ind = indices_range(s, parse_bound(&m["lo"]), parse_bound(&m["hi"]));
+            let tree = tree_of(m);
+            let mut leaves: Vec<String> = vec![];
+            let cb = SplitCb { tree: &tree, leaf: |xs: Vec<Vec<u64>>, l: usize| leaves.push(format!("{}#{}", nll(&xs), l)) };
+            (&ind).into_par_iter().with_producer(cb);
+            format!("val {}", leaves.join("|"))
+        }
+        "par" => {
+            // rayon's own bridge (drive / drive_unindexed, opt_len): ordered collect, unindexed count
+            let s = subset(m, "start", "shape");
+            let ind = indices_range(s, parse_bound(&m["lo"]), parse_bound(&m["hi"]));
+            let xs: Vec<Vec<u64>> = (&ind).into_par_iter().collect();
+            let ys: Vec<(usize, Vec<u64>)> = (&ind).into_par_iter().enumerate().filter(|(k, _)| k % 2 == 0).collect();
+            let cnt = (&ind).into_par_iter().filter(|_| true).count();
+            format!("val {} even={} count={}", nll(&xs), nll(&ys.into_iter().map(|x| x.1).collect::<Vec<_>>()), cnt)
+        }
+        "parchunks" => {
+            let s = subset(m, "start", "shape");
+            let ch = s.chunks(&nzs(&pnl(&m["cs"]))).unwrap();
+            let xs: Vec<(Vec<u64>, ArraySubset)> = (&ch).into_par_iter().collect();
+            let plen = IndexedParallelIterator::len(&(&ch).into_par_iter());
+            let olen = (&ch).into_par_iter().opt_len().map(|x| x.to_string()).unwrap_or("none".into());
+            let cnt = (&ch).into_par_iter().filter(|_| true).count();
+            format!("val {} plen={} optlen={} count={}", show_chunk_items(&xs), plen, olen, cnt)
+        }
+        "ulin" => {
+            let s = subset(m, "start", "shape");
+            let li = unsafe { s.linearised_indices_unchecked(&pnl(&m["arr"])) };
+            let (f, b, r, lens) = drive(li.iter(), &m["dirs"]);
+            format!("val f={} b={} r={} lens={} len={} empty={}", nl(&f), nl(&b), nl(&r), nl(&lens), li.len(), li.is_empty())
+        }
+        "ucontig" => {
+            let s = subset(m, "start", "shape");
+            let ci = unsafe { s.contiguous_indices_unchecked(&pnl(&m["arr"])) };
+            let it = ci.iter();
+            let (ice, iceu) = (it.contiguous_elements(), it.contiguous_elements_usize());
+            let (f, b, r, lens) = drive(it, &m["dirs"]);
+            format!("val run={} runusize={} itrun={} itrunusize={} f={} b={} r={} lens={} len={} empty={}", ci.contiguous_elements(), ci.contiguous_elements_usize(), ice, iceu, nll(&f), nll(&b), nll(&r), nl(&lens), ci.len(), ci.is_empty())
+        }
+        "ucontiglin" => {
+            let s = subset(m, "start", "shape");
+            let ci = unsafe { s.contiguous_linearised_indices_unchecked(&pnl(&m["arr"])) };
+            let it = ci.iter();
+            let (ice, iceu) = (it.contiguous_elements(), it.contiguous_elements_usize());
+            let (f, b, r, lens) = drive(it, &m["dirs"]);
+            format!("val run={} runusize={} itrun={} itrunusize={} f={} b={} r={} lens={} len={} empty={}", ci.contiguous_elements(), ci.contiguous_elements_usize(), ice, iceu, nl(&f), nl(&b), nl(&r), nl(&lens), ci.len(), ci.is_empty())
+        }
+        "ubyteranges" => {
+            let s = subset(m, "start", "shape");
+            let rs = unsafe { s.byte_ranges_unchecked(&pnl(&m["arr"]), m["es"].parse().unwrap()) };
+            format!("val {}", show_ranges(&rs))
+        }
+        "uextract" => {
+            let s = subset(m, "start", "shape");
+            let n: u64 = m["n"].parse().unwrap();
+            let els: Vec<u32> = (0..n as u32).collect();
+            let x = unsafe { s.extract_elements_unchecked(&els, &pnl(&m["arr"])) };
+            format!("val {}", nl(&x))
+        }
+        "uchunks" => {
+            let s = subset(m, "start", "shape");
+            let ch = unsafe { s.chunks_unchecked(&nzs(&pnl(&m["cs"]))) };
+            let (f, b, r, lens) = drive(ch.iter(), &m["dirs"]);
+            format!("val f={} b={} r={} lens={} len={} empty={}", show_chunk_items(&f), show_chunk_items(&b), show_chunk_items(&r), nl(&lens), ch.len(), ch.is_empty())
+        }
+        "uoverlap" => {
+            let a = subset(m, "astart", "ashape");
+            let b = subset(m, "bstart", "bshape");
+            let o = unsafe { a.overlap_unchecked(&b) };
+            format!("val {} empty={}", show_subset(&o), o.is_empty())
+        }
+        "ubound" => {
+            let a = subset(m, "start", "shape");
+            format!("val {}", show_subset(&unsafe { a.bound_unchecked(&pnl(&m["end"])) }))
+        }
+        "urelto" => {
+            let a = subset(m, "start", "shape");
+            format!("val {}", show_subset(&unsafe { a.relative_to_unchecked(&pnl(&m["o"])) }))
+        }
+        "uctor" => {
+            let a = pnl(&m["a"]);
+            let b = pnl(&m["b"]);
+            let r1 = unsafe { ArraySubset::new_with_start_end_inc_unchecked(a.clone(), b.clone()) };
+            let r2 = unsafe { ArraySubset::new_with_start_end_exc_unchecked(a.clone(), b.clone()) };
+            let r3 = unsafe { ArraySubset::new_with_start_shape_unchecked(a.clone(), b.clone()) };
+            format!("val inc={} exc={} ss={}", show_subset(&r1), show_subset(&r2), show_subset(&r3))
+        }
+        "misc" => {
+            // to_ranges / new_with_ranges / shape_usize / num_elements_usize / Display / new_with_shape / new_empty
+            let a = subset(m, "start", "shape");
+            let rs = a.to_ranges();
+            let rt = ArraySubset::new_with_ranges(&rs);
+            let rtxt = if rs.is_empty() { "~".to_string() } else { rs.iter().map(|r| format!("{}..{}", r.start, r.end)).collect::<Vec<_>>().join(";") };
+            format!(
+                "val ranges={} viaranges={} usize={} nusize={} withshape={} newempty={} disp={}",
+                rtxt,
+                show_subset(&rt),
+                nl(&a.shape_usize()),
+                a.num_elements_usize(),
+                show_subset(&ArraySubset::new_with_shape(a.shape().to_vec())),
+                show_subset(&ArraySubset::new_empty(a.dimensionality())),
+                a
+            )
+        }
+        "iters" => {
+            // the iterator types' own constructors (checked and, for an encapsulating array shape, unchecked), `len`,
+            // `is_empty`, `IntoIterator for &T`
+            let s = subset(m, "start", "shape");
+            let arr = pnl(&m["arr"]);
+            let cs = pnl(&m["cs"]);
+            let ind = Indices::new(s.clone());
+            let a = format!("{}/{}/{}", ind.len(), ind.is_empty(), nll(&(&ind).into_iter().collect::<Vec<_>>()));
+            let b = match LinearisedIndices::new(s.clone(), arr.clone()) {
+                Ok(x) => format!("{}/{}/{}", x.len(), x.is_empty(), nl(&(&x).into_iter().collect::<Vec<_>>())),
+                Err(_) => "err".into(),
+            };
+            let c = match ContiguousIndices::new(&s, &arr) {
+                Ok(x) => format!("{}/{}/{}/{}", x.len(), x.is_empty(), x.contiguous_elements_usize(), nll(&(&x).into_iter().collect::<Vec<_>>())),
+                Err(_) => "err".into(),
+            };
+            let d = match ContiguousLinearisedIndices::new(&s, arr.clone()) {
+                Ok(x) => format!("{}/{}/{}/{}", x.len(), x.is_empty(), x.contiguous_elements_usize(), nl(&(&x).into_iter().collect::<Vec<_>>())),
+                Err(_) => "err".into(),
+            };
+            let e = match Chunks::new(&s, &nzs(&cs)) {
+                Ok(x) => format!("{}/{}/{}", x.len(), x.is_empty(), show_chunk_items(&(&x).into_iter().collect::<Vec<_>>())),
+                Err(_) => "err".into(),
+            };
+            let u = if s.inbounds_shape(&arr) && cs.len() == s.dimensionality() {
+                let x1 = unsafe { LinearisedIndices::new_unchecked(s.clone(), arr.clone()) };
+                let x2 = unsafe { ContiguousIndices::new_unchecked(&s, &arr) };
+                let x3 = unsafe { ContiguousLinearisedIndices::new_unchecked(&s, arr.clone()) };
+                let x4 = unsafe { Chunks::new_unchecked(&s, &nzs(&cs)) };
+                format!(
+                    "{}/{}/{}/{}",
+                    nl(&x1.iter().collect::<Vec<_>>()),
+                    nll(&x2.iter().collect::<Vec<_>>()),
+                    nl(&x3.iter().collect::<Vec<_>>()),
+                    show_chunk_items(&x4.iter().collect::<Vec<_>>())
+                )
+            } else { "skip".into() };
+            format!("val ind={} lin={} contig={} contiglin={} chunks={} unchecked={}", a, b, c, d, e, u)
+        }
+        _ => return None,
+    })
 }
 
 pub fn exec(line: &str) -> String {
@@ -259,7 +468,7 @@ pub fn exec(line: &str) -> String {
             let r3 = ArraySubset::new_with_start_shape(a.clone(), b.clone()).map(|s| show_subset(&s)).unwrap_or("err".into());
             format!("val inc={} exc={} ss={}", r1, r2, r3)
         }
-        _ => "bad-op".into(),
+        other => exec_api(other, &m).unwrap_or("bad-op".into()),
     })
 }
 
@@ -305,6 +514,66 @@ fn dirs_patterns(rng: &mut Rng, n: usize) -> Vec<String> {
     v
 }
 
+/// all range bounds over `0..=top` plus the extreme `usize::MAX`
+fn bound_texts(kind: char, top: usize) -> Vec<String> {
+    let mut v: Vec<String> = (0..=top).map(|k| format!("{}{}", kind, k)).collect();
+    v.push(format!("{}{}", kind, usize::MAX));
+    v
+}
+/// the additions of the API-coverage audit for one in-bounds subset
+fn gen_api_subset(out: &mut Vec<String>, rng: &mut Rng, st: &[u64], sh: &[u64], arr: &[u64], s: &str) {
+    let rank = arr.len();
+    let n: usize = sh.iter().product::<u64>() as usize;
+    let total: u64 = arr.iter().product();
+    // explicit index ranges: exhaustive over all start/end bounds up to len+2 (included, excluded, unbounded) for small
+    // subsets, sampled with the boundary values otherwise
+    let mut los: Vec<String> = vec!["u".into()];
+    let mut his: Vec<String> = vec!["u".into()];
+    if rank <= 2 && n <= 6 {
+        for k in ['i', 'x'] { los.extend(bound_texts(k, n + 2)); his.extend(bound_texts(k, n + 2)); }
+    } else {
+        let pts = [0usize, 1, n / 2, n.saturating_sub(1), n, n + 1, n + 2, usize::MAX];
+        for _ in 0..5 {
+            los.push(format!("{}{}", if rng.chance(3, 4) { 'i' } else { 'x' }, rng.pick(&pts)));
+            his.push(format!("{}{}", if rng.chance(1, 2) { 'i' } else { 'x' }, rng.pick(&pts)));
+        }
+        his.push(format!("i{}", n));
+        his.push(format!("i{}", n + 1));
+        his.push(format!("x{}", n + 1));
+    }
+    for lo in &los {
+        for hi in &his {
+            let d = if rng.chance(1, 5) { dirs_patterns(rng, n.min(6)).pop().unwrap() } else { String::new() };
+            out.push(format!("c09 irange {} lo={} hi={} dirs={}", s, lo, hi, d));
+        }
+    }
+    for _ in 0..3 {
+        let (lo, hi) = (rng.pick(&los).clone(), rng.pick(&his).clone());
+        let sub = ArraySubset::new_with_start_shape(st.to_vec(), sh.to_vec()).unwrap();
+        let len = indices_range(sub, parse_bound(&lo), parse_bound(&hi)).len();
+        let t = gen_tree(rng, len.min(64), 3);
+        let mut toks = vec![];
+        show_tree(&t, &mut toks);
+        out.push(format!("c09 irangesplit {} lo={} hi={} tree={}", s, lo, hi, toks.join(".")));
+        if rng.chance(1, 3) { out.push(format!("c09 par {} lo={} hi={}", s, lo, hi)); }
+    }
+    out.push(format!("c09 par {} lo=u hi=u", s));
+    // the `_unchecked` variants under their contracts (the subset is inside `arr`)
+    let mut d2 = dirs_patterns(rng, n);
+    out.push(format!("c09 ulin {} arr={} dirs={}", s, nl(arr), d2.pop().unwrap()));
+    out.push(format!("c09 ulin {} arr={} dirs=", s, nl(arr)));
+    out.push(format!("c09 ucontig {} arr={} dirs=", s, nl(arr)));
+    out.push(format!("c09 ucontig {} arr={} dirs={}", s, nl(arr), d2.pop().unwrap()));
+    out.push(format!("c09 ucontiglin {} arr={} dirs=", s, nl(arr)));
+    for es in [1u64, 3] {
+        out.push(format!("c09 ubyteranges {} arr={} es={}", s, nl(arr), es));
+    }
+    out.push(format!("c09 uextract {} arr={} n={}", s, nl(arr), total));
+    out.push(format!("c09 misc {}", s));
+    let cs: Vec<u64> = (0..rank).map(|_| rng.range(1, 3)).collect();
+    out.push(format!("c09 iters {} arr={} cs={}", s, nl(arr), nl(&cs)));
+}
+
 pub fn generate(tier: &str, seed: u64) -> Vec<String> {
     let mut rng = Rng::new(seed);
     let thorough = tier == "thorough";
@@ -320,6 +589,23 @@ pub fn generate(tier: &str, seed: u64) -> Vec<String> {
             if arr.iter().all(|&d| d > 0) && rank > 0 {
                 // out-of-range linear index: the code wraps the leading digit
                 out.push(format!("c09 unravel n={} shape={}", total + rng.below(total + 3), nl(&arr)));
+            }
+            // `ravel_indices` directly: every in-bounds index, and two with components beyond the extents (same rank)
+            if total <= 40 {
+                for (i, _) in all_subsets(&arr, 0).iter().filter(|(_, n)| n.iter().all(|&x| x == 1)) {
+                    out.push(format!("c09 ravel i={} shape={}", nl(i), nl(&arr)));
+                }
+            }
+            for _ in 0..2 {
+                let i: Vec<u64> = arr.iter().map(|&a| rng.below(a + 3)).collect();
+                out.push(format!("c09 ravel i={} shape={}", nl(&i), nl(&arr)));
+            }
+            // `byte_ranges_unchecked` asks only for matching ranks: subsets sticking out of the array by one
+            if rank <= 2 {
+                for (st, sh) in all_subsets(&arr, 1) {
+                    if st.iter().zip(&sh).zip(&arr).all(|((s, n), a)| s + n <= *a) { continue; }
+                    out.push(format!("c09 ubyteranges start={} shape={} arr={} es=2", nl(&st), nl(&sh), nl(&arr)));
+                }
             }
             let subs = all_subsets(&arr, 0);
             for (st, sh) in &subs {
@@ -338,6 +624,7 @@ pub fn generate(tier: &str, seed: u64) -> Vec<String> {
                     out.push(format!("c09 byteranges {} arr={} es={}", s, nl(&arr), es));
                 }
                 out.push(format!("c09 extract {} arr={} n={}", s, nl(&arr), total));
+                gen_api_subset(&mut out, &mut rng, st, sh, &arr, &s);
                 out.push(format!("c09 props {}", s));
                 out.push(format!("c09 inbshape {} arr={}", s, nl(&arr)));
                 // chunk shapes
@@ -345,6 +632,8 @@ pub fn generate(tier: &str, seed: u64) -> Vec<String> {
                 for _ in 0..ncs {
                     let cs: Vec<u64> = (0..rank).map(|_| rng.range(1, 3)).collect();
                     out.push(format!("c09 chunks {} cs={} dirs=", s, nl(&cs)));
+                    out.push(format!("c09 uchunks {} cs={} dirs={}", s, nl(&cs), if rng.chance(1, 3) { dirs_patterns(&mut rng, 4).pop().unwrap() } else { String::new() }));
+                    if rng.chance(1, 6) { out.push(format!("c09 parchunks {} cs={}", s, nl(&cs))); }
                     if rng.chance(1, 3) {
                         let d = dirs_patterns(&mut rng, 4).pop().unwrap();
                         out.push(format!("c09 chunks {} cs={} dirs={}", s, nl(&cs), d));
@@ -372,8 +661,10 @@ pub fn generate(tier: &str, seed: u64) -> Vec<String> {
                 out.push(format!("c09 contains {} i={}", s, nl(&i)));
                 let e: Vec<u64> = arr.iter().map(|&a| rng.below(a + 2)).collect();
                 out.push(format!("c09 bound {} end={}", s, nl(&e)));
+                out.push(format!("c09 ubound {} end={}", s, nl(&e)));
                 let o: Vec<u64> = st.iter().map(|&a| rng.below(a + 1)).collect();
                 out.push(format!("c09 relto {} o={}", s, nl(&o)));
+                out.push(format!("c09 urelto {} o={}", s, nl(&o)));
             }
             // pairs: exhaustive for rank<=1 (and rank 2 thorough), sampled otherwise
             let exhaustive_pairs = rank <= 1 || (rank == 2 && thorough && total <= 9);
@@ -381,6 +672,7 @@ pub fn generate(tier: &str, seed: u64) -> Vec<String> {
             let mut push_pair = |a: &(Vec<u64>, Vec<u64>), b: &(Vec<u64>, Vec<u64>), out: &mut Vec<String>| {
                 let s = format!("astart={} ashape={} bstart={} bshape={}", nl(&a.0), nl(&a.1), nl(&b.0), nl(&b.1));
                 out.push(format!("c09 overlap {}", s));
+                out.push(format!("c09 uoverlap {}", s));
                 out.push(format!("c09 inbounds {}", s));
             };
             if exhaustive_pairs {
@@ -405,7 +697,18 @@ pub fn generate(tier: &str, seed: u64) -> Vec<String> {
         let a: Vec<u64> = (0..ra).map(|_| rng.below(4)).collect();
         let b: Vec<u64> = (0..rb).map(|_| rng.below(4)).collect();
         out.push(format!("c09 ctor a={} b={}", nl(&a), nl(&b)));
+        // the unchecked constructors ask for equal lengths only (an end below the start saturates)
+        let b2: Vec<u64> = (0..ra).map(|_| rng.below(4)).collect();
+        out.push(format!("c09 uctor a={} b={}", nl(&a), nl(&b2)));
+        out.push(format!("c09 ctor a={} b={}", nl(&a), nl(&b2)));
         let sh: Vec<u64> = (0..ra).map(|_| rng.below(4)).collect();
+        let csm: Vec<u64> = (0..rng.below(3)).map(|_| rng.range(1, 3)).collect();
+        out.push(format!("c09 iters start={} shape={} arr={} cs={}", nl(&a), nl(&sh), nl(&b), nl(&csm)));
+        out.push(format!("c09 contig start={} shape={} arr={} dirs=", nl(&a), nl(&sh), nl(&b)));
+        out.push(format!("c09 contiglin start={} shape={} arr={} dirs=", nl(&a), nl(&sh), nl(&b)));
+        out.push(format!("c09 byteranges start={} shape={} arr={} es=2", nl(&a), nl(&sh), nl(&b)));
+        out.push(format!("c09 extract start={} shape={} arr={} n={}", nl(&a), nl(&sh), nl(&b), b.iter().product::<u64>() + rng.below(2)));
+        out.push(format!("c09 chunks start={} shape={} cs={} dirs=", nl(&a), nl(&sh), nl(&csm)));
         out.push(format!("c09 inbshape start={} shape={} arr={}", nl(&a), nl(&sh), nl(&b)));
         out.push(format!("c09 bound start={} shape={} end={}", nl(&a), nl(&sh), nl(&b)));
         out.push(format!("c09 relto start={} shape={} o={}", nl(&a), nl(&sh), nl(&b)));
